@@ -250,7 +250,16 @@ func (r *repeat) more(s bitStream) bool {
 		pCont = 0
 	}
 
-	cont := flipBiasedCoin(s, pCont)
+	var cont bool
+	if r.forceStop {
+		// the stop is forced by rejections, which are pruned from the recording:
+		// record a coin that means "stop" on replay as well
+		i := s.beginGroup(coinFlipLabel, false)
+		s.drawBits(0)
+		s.endGroup(i, false)
+	} else {
+		cont = flipBiasedCoin(s, pCont)
+	}
 	if cont {
 		r.count++
 	} else {
